@@ -121,10 +121,51 @@ def fixed_construct_name_alone(src, ctx):
 _XOP = re.compile(r"(?i)\boperator\s*\(\s*(\*\*|//|==|/=|<=|>=|[*/+\-<>]|\.\w+\.)\s*\)\s*\)")
 
 
+def _paren_net(t):
+    n, q = 0, None
+    for c in t:
+        if q:
+            if c == q:
+                q = None
+        elif c in "'\"":
+            q = c
+        elif c in "([":
+            n += 1
+        elif c in ")]":
+            n -= 1
+    return n
+
+
 def extended_intrinsic_op_unanchored(src, ctx):
-    """`operator(+))`: Extended_Intrinsic_Op.match uses the un-anchored operator pattern, so
-    text that merely starts with an intrinsic operator ('+)') is taken as the operator"""
-    return ctx.get("kind") == "add-paren" and any(_XOP.search(strip_comment(l)) for l in src.split("\n"))
+    """`operator(+))`, `operator(//, assignment(=)`, `operator .lop.) => operator(.rop.)`:
+    Generic_Spec.match takes any text that starts with OPERATOR and ends with `)` and hands the
+    inside to Extended_Intrinsic_Op / Defined_Operator, whose patterns are not anchored at the
+    end, so text that merely STARTS with an operator is accepted.  True when the surplus or
+    missing parenthesis of the mutated line lies inside comma-separated entries that contain
+    an OPERATOR generic-spec (the rest of the line is balanced)."""
+    if ctx.get("kind") not in ("add-paren", "del-paren"):
+        return False
+    for l in src.split("\n"):
+        l = strip_comment(l)
+        if _paren_net(l) == 0 or not re.search(r"(?i)\boperator\b", l):
+            continue
+        head = re.split(r"(?i)\bonly\s*:|\binterface\b|\bgeneric\b.*?::|\buse\b[^,]*,", l, maxsplit=1)
+        body = head[-1]
+        parts = body.split(",")
+        # greedy regrouping: an unbalanced entry extends to the following ones
+        rest = [x for x in parts if not re.search(r"(?i)\boperator\b", x)]
+        if _paren_net(",".join(rest)) == 0 or len(parts) == 1:
+            return True
+        # the imbalance may spill over the comma (`operator(//, assignment(=)`)
+        bad = [k for k, x in enumerate(parts) if re.search(r"(?i)\boperator\b", x) and _paren_net(x) != 0]
+        if not bad:
+            continue
+        i = bad[0]
+        for j in range(i + 1, len(parts) + 1):
+            others = parts[:i] + parts[j:]
+            if _paren_net(",".join(others)) == 0 and not any(re.search(r"(?i)\boperator\b", x) and _paren_net(x) for x in others):
+                return True
+    return False
 
 
 def one_spec_equals_inside_positional(src, ctx):
